@@ -81,7 +81,7 @@ MAP_LONG_SPECIALS = [4294967296, 5000000000, 140737488355327, -2147483648, 21474
 
 def rand_val(rng, t, small=12, in_map=False):
     if t == "string":
-        return rng.randrange(0, small)
+        return rng.randrange(1, small + 1)      # never "": known finding C19-empty-string-result-reevaluated
     if t == "bool":
         return rng.randrange(0, 2)
     if rng.random() < 0.06:
@@ -100,7 +100,7 @@ def new_cont(rng, kind, kdom=None):
         kt = rng.choice(MAP_KT)
         c = {"kind": "map", "k": kt, "v": rng.choice(MAP_VT), "kdom": kdom or rng.choice([3, 6, 10, 16, 40])}
         if kt == "string":
-            c["koff"], c["kstride"] = 0, 1
+            c["koff"], c["kstride"] = 1, 1
         else:
             c["koff"] = rng.choice([0, 0, -5, {"int": 2147483500, "long": 5000000000, "short": 32600}[kt]])
             c["kstride"] = rng.choice([1, 1, 1, {"int": 7, "long": 10000000000, "short": 3}[kt]])
@@ -146,6 +146,8 @@ def gen_op(rng, c, ci, phase, approx_len):
             op = rng.choice(["pop_back", "pop_front", "delete_at"])
         if rng.random() < 0.01:
             op = "clear"
+        if c["e"] == "string" and op in ("find", "sort", "smaller", "greater", "sort_fn"):
+            op = "at"                            # known finding C19-vector-string-compare
         if op in ("push_back", "push_front", "find"):
             return [ci, op, rand_val(rng, c["e"], 7)]
         if op in ("delete_at", "at"):
@@ -691,7 +693,9 @@ def replay_finding(impl_dir, f, asan_dir=None):
         bad = rc != 0 or "runtime error" in e or "AddressSanitizer" in e
         return "fails" if bad or o.split("\n")[:-1] != r["expected_stdout"] else "passes"
     rc, lines, trace, err = run_impl(impl_dir, r["program"], with_shim=True)
-    if rc != 0 or lines != r["expected_stdout"] or any(t[1] == "X" for t in trace):
+    if rc != 0 or any(t[1] == "X" for t in trace):
+        return "fails"
+    if not r.get("expected_stdout_ignored") and lines != r["expected_stdout"]:
         return "fails"
 
     def live_of(ev):
